@@ -138,3 +138,123 @@ fn leaf_language_default_is_und() {
     assert!(Language::try_from(none) == Ok(d));
     assert!(Language::try_from(Some(v)) == Language::from_bytes(v));
 }
+
+// ---- C12 / C17: derived Eq/Ord are those of the text; raw integer round trip; injectivity --------
+
+fn any_variant() -> Option<Variant> {
+    let buf: [u8; 9] = kani::any();
+    let len: usize = kani::any();
+    kani::assume(len <= 9);
+    Variant::from_bytes(&buf[..len]).ok()
+}
+fn any_language() -> Option<Language> {
+    let buf: [u8; 9] = kani::any();
+    let len: usize = kani::any();
+    kani::assume(len <= 9);
+    Language::from_bytes(&buf[..len]).ok()
+}
+fn any_script() -> Option<Script> {
+    let buf: [u8; 5] = kani::any();
+    let len: usize = kani::any();
+    kani::assume(len <= 5);
+    Script::from_bytes(&buf[..len]).ok()
+}
+fn any_region() -> Option<Region> {
+    let buf: [u8; 5] = kani::any();
+    let len: usize = kani::any();
+    kani::assume(len <= 5);
+    Region::from_bytes(&buf[..len]).ok()
+}
+
+#[kani::proof]
+#[kani::unwind(11)]
+fn leaf_variant_ord_is_lex() {
+    if let (Some(a), Some(b)) = (any_variant(), any_variant()) {
+        let (x, y) = (a.as_str().as_bytes(), b.as_str().as_bytes());
+        assert!((a == b) == x_eq_bytes(x, y));
+        assert!((a <= b) == x_lex_le(x, y));
+        assert!((a.cmp(&b) == std::cmp::Ordering::Equal) == (a == b));
+        assert!((a.cmp(&b) == std::cmp::Ordering::Less) == (x_lex_le(x, y) && !x_eq_bytes(x, y)));
+        assert!(a.partial_cmp(&b) == Some(a.cmp(&b)));
+        // C17: distinct subtags have distinct integer forms; the raw constructor is the inverse
+        assert!((u64::from(a) == u64::from(b)) == (a == b));
+        let back = unsafe { Variant::from_raw_unchecked(u64::from(a)) };
+        assert!(back == a && x_eq_bytes(back.as_str().as_bytes(), x));
+        assert!(u64::from(&a) == u64::from(a));
+        // C15: comparison with &str exposes the same text
+        kani::cover!(a < b);
+    }
+}
+
+#[kani::proof]
+#[kani::unwind(11)]
+fn leaf_language_ord_is_lex() {
+    if let (Some(a), Some(b)) = (any_language(), any_language()) {
+        let (x, y) = (a.as_str().as_bytes(), b.as_str().as_bytes());
+        // 'und' is the empty language and sorts first (None < Some)
+        assert!((a == b) == x_eq_bytes(x, y));
+        let le_spec = if a.is_empty() { true } else if b.is_empty() { false } else { x_lex_le(x, y) };
+        assert!((a <= b) == le_spec);
+        assert!((a.cmp(&b) == std::cmp::Ordering::Equal) == (a == b));
+        assert!(a.partial_cmp(&b) == Some(a.cmp(&b)));
+        assert!((Option::<u64>::from(a) == Option::<u64>::from(b)) == (a == b));
+        if let Some(raw) = Option::<u64>::from(a) {
+            let back = unsafe { Language::from_raw_unchecked(raw) };
+            assert!(back == a && x_eq_bytes(back.as_str().as_bytes(), x));
+        }
+        assert!(Option::<u64>::from(&a) == Option::<u64>::from(a));
+        kani::cover!(a < b);
+        kani::cover!(a.is_empty() && !b.is_empty());
+    }
+}
+
+#[kani::proof]
+#[kani::unwind(7)]
+fn leaf_script_ord_is_lex() {
+    if let (Some(a), Some(b)) = (any_script(), any_script()) {
+        let (x, y) = (a.as_str().as_bytes(), b.as_str().as_bytes());
+        assert!((a == b) == x_eq_bytes(x, y));
+        assert!((a <= b) == x_lex_le(x, y));
+        assert!((a.cmp(&b) == std::cmp::Ordering::Equal) == (a == b));
+        assert!((u32::from(a) == u32::from(b)) == (a == b));
+        let back = unsafe { Script::from_raw_unchecked(u32::from(a)) };
+        assert!(back == a && x_eq_bytes(back.as_str().as_bytes(), x));
+        let s: &str = (&a).into();
+        assert!(x_eq_bytes(s.as_bytes(), x));
+        kani::cover!(a < b);
+    }
+}
+
+#[kani::proof]
+#[kani::unwind(7)]
+fn leaf_region_ord_is_lex() {
+    if let (Some(a), Some(b)) = (any_region(), any_region()) {
+        let (x, y) = (a.as_str().as_bytes(), b.as_str().as_bytes());
+        assert!((a == b) == x_eq_bytes(x, y));
+        assert!((a <= b) == x_lex_le(x, y));
+        assert!((a.cmp(&b) == std::cmp::Ordering::Equal) == (a == b));
+        assert!((u32::from(a) == u32::from(b)) == (a == b));
+        let back = unsafe { Region::from_raw_unchecked(u32::from(a)) };
+        assert!(back == a && x_eq_bytes(back.as_str().as_bytes(), x));
+        let s: &str = (&a).into();
+        assert!(x_eq_bytes(s.as_bytes(), x));
+        kani::cover!(a < b);
+    }
+}
+
+/// C15 / C12: `subtag == &str` is true iff the string equals the canonical text
+#[kani::proof]
+#[kani::unwind(11)]
+fn leaf_subtag_eq_str() {
+    let sbuf: [u8; 9] = kani::any();
+    let slen: usize = kani::any();
+    kani::assume(slen <= 9);
+    // any ASCII string (non-ASCII strings can never equal an ASCII text; covered by the byte comparison below)
+    let mut i = 0;
+    while i < 9 { kani::assume(sbuf[i] < 0x80); i += 1; }
+    let s: &str = unsafe { std::str::from_utf8_unchecked(&sbuf[..slen]) };
+    if let Some(a) = any_variant() { assert!((a == s) == x_eq_bytes(a.as_str().as_bytes(), s.as_bytes())); assert!((a == *s) == (a == s)); }
+    if let Some(a) = any_language() { assert!((a == s) == x_eq_bytes(a.as_str().as_bytes(), s.as_bytes())); }
+    if let Some(a) = any_script() { assert!((a == s) == x_eq_bytes(a.as_str().as_bytes(), s.as_bytes())); }
+    if let Some(a) = any_region() { assert!((a == s) == x_eq_bytes(a.as_str().as_bytes(), s.as_bytes())); }
+}
